@@ -325,16 +325,11 @@ pub fn acyclic(n: usize, edges: &[(usize, usize, &'static str, String)]) -> bool
     done.iter().all(|d| *d)
 }
 
-/// Classes of edges the shared sorter does not see at the pinned commit (recorded findings); everything else is "visible".
+/// The one class of edges the shared sorter still does not see (recorded finding): the target is serde-renamed, so the
+/// reference was rewritten to a name the sorter does not look up. Everything else is "visible".
 fn edge_class(from: &Item, to: &Item, pos: &str, via: &str) -> String {
     if to.serde_rename.is_some() {
         "target-renamed".into()
-    } else if from.kind_name() == "tagged-enum" {
-        "from-tagged-enum".into()
-    } else if via.contains("array") || via.contains("slice") {
-        "via-array-or-slice".into()
-    } else if via.starts_with("nested") && via.contains("generic-arg") {
-        "via-container-inside-generic-arg".into()
     } else {
         format!("visible:{}/{}/{}", from.kind_name(), pos, via)
     }
